@@ -146,8 +146,15 @@ def scenarios(rng, tier, runner):
         while True:
             tmpl = None
             if forced:
-                tmpl = [templates.pick_element(rng, B) for _ in range(rng.choice([0, 1]))] + \
-                       templates.gen_operator_group(rng, B, D, kind=forced) + [templates.pick_element(rng, B)]
+                grp = templates.gen_operator_group(rng, B, D, kind=forced)
+                tmpl = [templates.pick_element(rng, B) for _ in range(rng.choice([0, 1]))] + grp + [templates.pick_element(rng, B)]
+                if rng.random() < 0.4:
+                    # the operator left in force at the end of the subset, and elements it would govern at the very
+                    # start of the next one: every subset starts from a clean operator state
+                    while grp and regs.F(grp[-1]) == 2 and regs.Y(grp[-1]) == 0:
+                        grp = grp[:-1]
+                    lead = [d for d in grp if regs.F(d) == 0 and regs.X(d) != 31][:2]
+                    tmpl = lead + grp
             ls, meta = datasets.build_lines(rng, name, B, D, nsub=nsub, same_structure=(forced is not None) or (comp == 1 and rng.random() < 0.85),
                                             edition=rng.choice([2, 3, 4, 4]), template=tmpl,
                                             same_fill=(forced == "203"))
